@@ -144,6 +144,25 @@ def fixed_size(t):
     return None
 
 
+def flat_collection(t):
+    """list / set / map of leaves, possibly under frozen / reversed: the collections protocol v1 / v2 know."""
+    while t["k"] in ("frozen", "reversed"):
+        t = t["a"][0]
+    return t["k"] in ("list", "set", "map") and all(a["k"] in ("int", "text") for a in t["a"])
+
+
+def ref_bytes_v2(t, v):
+    """Independent encoder of a flat collection for native protocol v1 / v2: [short n] ([short len] bytes)*."""
+    while t["k"] in ("frozen", "reversed"):
+        t = t["a"][0]
+
+    def sp(b):
+        return struct.pack(">H", len(b)) + b
+    if t["k"] == "map":
+        return struct.pack(">H", len(v)) + b"".join(sp(ref_bytes(t["a"][0], a)) + sp(ref_bytes(t["a"][1], b)) for a, b in v)
+    return struct.pack(">H", len(v)) + b"".join(sp(ref_bytes(t["a"][0], x)) for x in v)
+
+
 def ref_bytes(t, v):
     """Independent encoder of the native protocol (v3+) value formats."""
     k = t["k"]
@@ -184,7 +203,7 @@ def normalize(v):
 
 # ------------------------------------------------------------------ evaluation of one state
 
-def eval_cass(t, cass_tokens, cql_tokens, full=True):
+def eval_cass(t, cass_tokens, cql_tokens, full=True, plain_tokens=None):
     """Cassandra notation -> type class: returns a list of (signature, message); empty = conforms."""
     ct = repo_import("cassandra.cqltypes")
     md = repo_import("cassandra.metadata")
@@ -241,6 +260,44 @@ def eval_cass(t, cass_tokens, cql_tokens, full=True):
     except Exception as ex:
         out.append(("lookup_casstype:serialization-raises", "lookup_casstype(%r): serializing a value raised %s: %s"
                     % (s, type(ex).__name__, ex)))
+    if plain_tokens is not None and not any(sig.startswith("lookup_casstype:") for sig, _ in out):
+        out += eval_wire_versions(t, cls, s, cass_string(plain_tokens, full))
+    return out
+
+
+def eval_wire_versions(t, cls, s, plain):
+    """On every protocol version the parsed type encodes / decodes like the type without its frozen / reversed
+    wrappers (TypeNames.tla: ValueType, WireVersions); flat collections also against the v1 / v2 format itself."""
+    ct = repo_import("cassandra.cqltypes")
+    out = []
+    try:
+        base = cls if plain == s else ct.lookup_casstype(plain)
+    except Exception as ex:
+        return [("lookup_casstype:raises", "lookup_casstype(%r) raised %s: %s" % (plain, type(ex).__name__, ex))]
+    w = witness(t)
+    for pv in (1, 2, 3, 4):
+        try:
+            want_b = base.serialize(w, pv)
+            if pv < 3 and flat_collection(t) and want_b != ref_bytes_v2(t, w):
+                out.append(("lookup_casstype:serialization-differs", "lookup_casstype(%r).serialize(%r, protocol v%d) = %s, "
+                            "protocol encoding is %s" % (plain, w, pv, want_b.hex(), ref_bytes_v2(t, w).hex())))
+                break
+            got_b = cls.serialize(w, pv)
+            if got_b != want_b:
+                out.append(("lookup_casstype:wrapper-changes-value-codec",
+                            "protocol v%d: lookup_casstype(%r).serialize(%r) = %s but the type it wraps, %r, encodes %s"
+                            % (pv, s, w, got_b.hex(), plain, want_b.hex())))
+                break
+            back = normalize(cls.deserialize(want_b, pv))
+            if back != normalize(w):
+                out.append(("lookup_casstype:wrapper-changes-value-codec",
+                            "protocol v%d: lookup_casstype(%r) decodes %s (%r encoded by %r) as %r"
+                            % (pv, s, want_b.hex(), normalize(w), plain, back)))
+                break
+        except Exception as ex:
+            out.append(("lookup_casstype:wrapper-changes-value-codec", "protocol v%d: lookup_casstype(%r): encoding / decoding "
+                        "%r raised %s: %s" % (pv, s, w, type(ex).__name__, ex)))
+            break
     return out
 
 
@@ -302,7 +359,7 @@ def shadowed_tokens(cass_tokens):
     return sorted(set(out))
 
 
-def eval_history(prev_descriptors, t, cass_tokens, cql_tokens):
+def eval_history(prev_descriptors, t, cass_tokens, cql_tokens, plain_tokens=None):
     """Parse the descriptors of `prev_descriptors` (token sequences), then evaluate t's descriptor as eval_cass does;
     the registries are those of a process that parsed nothing else, and are restored afterwards.
     A divergence in the presence of a shadowed plain-name token gets SIG_SHADOW."""
@@ -315,7 +372,7 @@ def eval_history(prev_descriptors, t, cass_tokens, cql_tokens):
             except Exception:
                 pass                                   # its own evaluation (with an empty history) reports that
         before = shadowed_tokens(cass_tokens)
-        fails = eval_cass(t, cass_tokens, cql_tokens, True)
+        fails = eval_cass(t, cass_tokens, cql_tokens, True, plain_tokens)
         shadow = sorted(set(before + shadowed_tokens(cass_tokens)))
     finally:
         registry_restore(snap)
